@@ -32,6 +32,8 @@ type specEnv struct {
 	resLoc  map[int]*Loc // results that are pointers to a cell allocated by the function
 	varLoc  map[string]*Loc // variables whose current value lives in memory (map-typed parameters)
 	noUnfold bool
+	curParam map[string]bool // parameters re-assigned in the body: in loop / call-site clauses the name is the variable's current value (old(p): its entry value)
+	inOld    bool
 	structArg map[string]*Loc // struct arguments (by value) and the caller's location they were loaded from
 	visited Term // ghost set of keys already visited by the enclosing map range
 	visitedSort string // sort of the ranged map
@@ -44,6 +46,20 @@ func (env *specEnv) clone() *specEnv {
 	for k, v := range env.vars {
 		c.vars[k] = v
 	}
+	return &c
+}
+
+// stateOnly: the environment of a package state invariant: package-level variables only, so that a parameter or local
+// that happens to carry the name of a package variable does not capture it
+func stateOnly(env *specEnv) *specEnv {
+	c := *env
+	c.vars = map[string]tval{}
+	c.ptrLoc = map[string]*Loc{}
+	c.varLoc = map[string]*Loc{}
+	c.locals = nil
+	c.results = nil
+	c.resNames = nil
+	c.curParam = nil
 	return &c
 }
 
@@ -391,6 +407,13 @@ func (e *enc) specIdent(env *specEnv, name string) (tval, error) {
 			return e.mkT(e.readIn(env.mem, l), l.ty), nil
 		}
 	}
+	if env.curParam[name] && !env.inOld && env.locals != nil {
+		if _, quantified := env.vars["#q:"+name]; !quantified {
+			if v, ok := env.locals(name); ok {
+				return v, nil
+			}
+		}
+	}
 	if v, ok := env.vars[name]; ok {
 		return v, nil
 	}
@@ -688,6 +711,7 @@ func (e *enc) specCall(env *specEnv, n *SCall) (tval, error) {
 		}
 		env2 := env.clone()
 		env2.mem = env.oldMem
+		env2.inOld = true
 		return e.specX(env2, n.Args[0])
 	case "len":
 		as, err := args()
